@@ -96,6 +96,58 @@ func vh_C11_LazyOncePerEval() {
 	vfReach("end")
 }
 
+// composition does not disturb what was composed before: two MonadIOs derived by FlatMap from the SAME parent chain
+// (k left-nested FlatMaps, k = 0..4, thorough 7) each evaluate to their own composition, in either evaluation order,
+// and the parent still evaluates to its own
+func vh_C11_SharedParent() {
+	e := &c11Env{}
+	x := vfInt("x")
+	step := func(id int) func(int) *MonadIODef[int] {
+		return func(v int) *MonadIODef[int] {
+			e.trace = append(e.trace, id)
+			return MonadIOJustGenerics(vfFn("K", id, v))
+		}
+	}
+	k := vfRange("chain", 0, 4+3*vfTier())
+	p := MonadIOJustGenerics(x)
+	pv := x
+	var pt []int
+	for i := 0; i < k; i++ {
+		p = p.FlatMap(step(i))
+		pv = vfFn("K", i, pv)
+		pt = append(pt, i)
+	}
+	a := p.FlatMap(step(100))
+	b := p.FlatMap(step(200))
+	vfAssert("lazy-no-effect-at-construction", len(e.trace) == 0)
+	check := func(name string, m *MonadIODef[int], last int) {
+		e.trace = nil
+		var got int
+		if !vfNoPanic("nopanic", func() { got = m.Eval() }) {
+			return
+		}
+		want := append(append([]int{}, pt...), last)
+		wv := vfFn("K", last, pv)
+		if last < 0 {
+			want, wv = pt, pv
+		}
+		vfAssert(name+"-value", got == wv)
+		vfAssert(name+"-effects-once-in-order", vfSliceEq(e.trace, want))
+	}
+	switch vfChoose("order", 3) {
+	case 0:
+		check("first-derived", a, 100)
+		check("second-derived", b, 200)
+	case 1:
+		check("second-derived", b, 200)
+		check("first-derived", a, 100)
+	default:
+		check("parent", p, -1)
+		check("first-derived", a, 100)
+	}
+	vfReach("end")
+}
+
 func vh_C11_Laws() {
 	e := &c11Env{}
 	x := vfInt("x")
